@@ -232,20 +232,22 @@ func ruleLastWriter(r *Run) {
 	}
 	// Set is unconditional w.r.t. Has
 	nSet := 0
-	eachInstr(fn, func(in ssa.Instruction) {
+	p.eachInstrRegion(fn, func(_ *ssa.Function, in ssa.Instruction) {
 		c, ok := in.(ssa.CallInstruction)
 		if !ok || !c.Common().IsInvoke() || c.Common().Method.Name() != "Set" || c.Common().Method.Pkg() == nil || c.Common().Method.Pkg().Path() != protoreflect {
 			return
 		}
 		nSet++
 		guarded := false
-		for _, g := range guardsOf(in.Block()) {
-			if gc, ok := g.Cond.(*ssa.Call); ok && gc.Common().IsInvoke() && gc.Common().Method.Name() == "Has" {
-				guarded = true
-			}
-			if u, ok := g.Cond.(*ssa.UnOp); ok && u.Op == token.NOT {
-				if gc, ok := u.X.(*ssa.Call); ok && gc.Common().IsInvoke() && gc.Common().Method.Name() == "Has" {
+		for _, ctx := range p.guardContexts(in.Block()) {
+			for _, g := range ctx {
+				if gc, ok := g.Cond.(*ssa.Call); ok && gc.Common().IsInvoke() && gc.Common().Method.Name() == "Has" {
 					guarded = true
+				}
+				if u, ok := g.Cond.(*ssa.UnOp); ok && u.Op == token.NOT {
+					if gc, ok := u.X.(*ssa.Call); ok && gc.Common().IsInvoke() && gc.Common().Method.Name() == "Has" {
+						guarded = true
+					}
 				}
 			}
 		}
@@ -264,15 +266,18 @@ func ruleLastWriter(r *Run) {
 		return ok && c.Common().IsInvoke() && c.Common().Method.Name() == "Set" && c.Common().Method.Pkg() != nil && c.Common().Method.Pkg().Path() == protoreflect
 	}
 	var setCall ssa.CallInstruction
-	eachInstr(fn, func(in ssa.Instruction) {
+	p.eachInstrRegion(fn, func(_ *ssa.Function, in ssa.Instruction) {
 		if isSet(in) {
 			setCall = in.(ssa.CallInstruction)
 		}
 	})
 	fd := setCall.Common().Args[0]
+	// the write may live in a transparent helper of params.set (one parameter applied per call):
+	// the path condition is then checked inside that helper, whose nil return is "next parameter"
+	setFn := setCall.Parent()
 	// outer loop header: the block of the receiver-range index phi
 	var header *ssa.BasicBlock
-	eachInstr(fn, func(in ssa.Instruction) {
+	eachInstr(setFn, func(in ssa.Instruction) {
 		if ia, ok := in.(*ssa.IndexAddr); ok && ia.X == ssa.Value(recv) {
 			if ph := indexPhi(ia.Index); ph != nil {
 				header = ph.Block()
@@ -280,7 +285,7 @@ func ruleLastWriter(r *Run) {
 		}
 	})
 	checked := false
-	for _, b := range fn.Blocks {
+	for _, b := range setFn.Blocks {
 		ifi := blockIf(b)
 		if ifi == nil || p.knownSingular(fd, b) {
 			continue
@@ -291,7 +296,7 @@ func ruleLastWriter(r *Run) {
 				continue
 			}
 			checked = true
-			q := pathQuery{fn: fn, start: ifi, barrier: isSet,
+			q := pathQuery{fn: setFn, start: ifi, barrier: isSet,
 				edgeOK: func(bb *ssa.BasicBlock, ss int) bool { return bb != b || ss == succ },
 				target: func(x ssa.Instruction) bool {
 					if isReturn(x) {
@@ -363,8 +368,9 @@ func ruleDecodeThenParams(r *Run) {
 			// params.set runs under the first-message test
 			first := false
 			for _, g := range guardsOf(si.Block()) {
-				if bo, ok := g.Cond.(*ssa.BinOp); ok && bo.Op == token.EQL && g.True {
-					if k, isC := constInt(bo.Y); isC && (k == 0 || k == 1) {
+				// count == 0 (or == 1, < 1, <= 0), on whichever edge and in whichever form it is written
+				if _, y, op, ok := g.cmp(); ok {
+					if k, isC := constInt(y); isC && ((op == token.EQL && (k == 0 || k == 1)) || (op == token.LSS && k == 1) || (op == token.LEQ && k == 0)) {
 						first = true
 					}
 				}
